@@ -297,11 +297,13 @@ pzgstrf_column_dfs(
     if ( samesuper == NO ) { /* starts a new supernode */
 	nsuper = NewNsuper(pnum, pxgstrf_shared, &Glu->nsuper);
 	xsup[nsuper] = jcol;
+	SLU_VERIF_EV(SLU_VEV_NSUPER, pnum, jcol, nsuper, 0, pxgstrf_shared);
 	
 	/* Copy column jcol; also reserve space to store pruned graph */
 	if ((mem_error = Glu_alloc(pnum, jcol, 2*no_lsub, LSUB, &ito, 
 				  pxgstrf_shared)))
 	    return mem_error;
+	SLU_VERIF_EV(SLU_VEV_LSUB, pnum, jcol, ito, 2*no_lsub, pxgstrf_shared);
 	xlsub[jcol] = ito;
 	lsub = Glu->lsub;
 	for (ifrom = 0; ifrom < nextl; ++ifrom) {
